@@ -368,6 +368,53 @@ def d7(ctx, prog):
             ctx.undecided('C02-D1', key_, f'batch size expression `{txt[:60]}` not understood', run.where())
 
 
+def d8(ctx, prog):
+    """the batch slices partition the trace set: `_TracesBatchIterable.__init__` is interpreted (sa.confinterp) for every trace-set
+    length 0..24 and every batch size 1..26; the slices it stores, applied in order to range(length), must give 0..length-1 exactly
+    once and in order, in ceil(length / size) non-empty batches none longer than the batch size and all but the last of that size."""
+    from .. import confinterp as cf
+    it_cls = prog.need_class(CT, '_TracesBatchIterable')
+    init = it_cls.methods.get('__init__')
+    key = f'{init.key}::slices partition the trace set'
+    ps = [p_ for p_ in init.params if p_ != 'self']
+    bad = []
+    n = 0
+    try:
+        for L in range(0, 25):
+            for bs in range(1, 27):
+                it = cf.Interp(prog)
+                obj = cf.Obj(cls=it_cls)
+                kw = {ps[0]: cf.TList(range(L)), ps[1]: bs}
+                for p_ in ps[2:]:
+                    kw[p_] = cf.Sym(p_)
+                try:
+                    it.call(init, (), kw, selfobj=obj)
+                except cf.Raised as e:
+                    bad.append(f'{L} traces, batch size {bs}: construction raises {e.kind}')
+                    continue
+                n += 1
+                lists = [v for v in obj.attrs.values() if isinstance(v, list) and v and all(isinstance(x, slice) for x in v)]
+                sl = lists[0] if lists else ([] if any(isinstance(v, list) and not v for v in obj.attrs.values()) else None)
+                if sl is None:
+                    raise cf.Unknown('the list of batch slices was not found among the attributes stored')
+                got, sizes = [], []
+                for s_ in sl:
+                    part = list(range(L))[s_]
+                    got.extend(part)
+                    sizes.append(len(part))
+                want_n = -(-L // bs)
+                if got != list(range(L)):
+                    bad.append(f'{L} traces, batch size {bs}: the batches cover traces {got[:12]}{"..." if len(got) > 12 else ""}, not 0..{L - 1} once each in order')
+                elif len(sl) != want_n or any(z == 0 for z in sizes) or any(z != bs for z in sizes[:-1]) or (sizes and sizes[-1] > bs):
+                    bad.append(f'{L} traces, batch size {bs}: batch sizes {sizes[:8]}, expected {want_n} batches of {bs} (the last possibly shorter, none empty)')
+    except cf.Unknown as e:
+        ctx.undecided('C02-D8', key, f'slice construction not evaluable: {e}', init.where())
+        return 0
+    ctx.check(not bad, 'C02-D8', key, f'{bad[0] if bad else ""} ({len(bad)} of {n} (length, batch size) pairs differ): run() would skip, repeat or reorder traces',
+              f'{n} (length, batch size) pairs: every trace exactly once, in order, in batches of the requested size', init.where(), pairs=n)
+    return n
+
+
 def run(ctx, prog):
     from .. import universe as _uni0
     _uni0.inline_base_entry_points(ctx, prog)
@@ -376,8 +423,10 @@ def run(ctx, prog):
     ctx.rule('C02-D3', 'frame on the sample axis first, then self.preprocesses in list order, chained; frame and list travel unchanged')
     ctx.rule('C02-D4', 'iterator, indexer and length range over the whole slice list')
     ctx.rule('C02-D5', 'single writers: results = compute(); scores = discriminant(results) after super().compute_results()')
+    ctx.rule('C02-D8', 'the batch slices partition the trace set in order: interpretation of the slice construction for every length 0..24 x batch size 1..26')
+    ctx.floor('(length, batch size) pairs interpreted', d8(ctx, prog), 600)
     ctx.rule('C02-D7', 'Container._compute_batch_size returns a value on every path')
-    ctx.assume('that the slice list [k*bs,(k+1)*bs) + tail partitions [0, len) for all (len, bs) is integer arithmetic over run-time sizes and is not decided (solver territory)')
+    ctx.assume('that the slice list partitions [0, len) is decided by interpretation for len < 25 and batch sizes < 27 (C02-D8), not for all integers')
     ctx.assume('batch invariance of the distinguisher update itself is C01')
     n = d1(ctx, prog)
     s = d2(ctx, prog)
